@@ -184,6 +184,8 @@ def write_svg(matrix, matrix_size, out, colormap, scale=1, border=None, xmldecl=
     is_multicolor = len(set(colormap.values())) > 2
     need_background = not is_multicolor and colormap[consts.TYPE_QUIET_ZONE] is not None and not draw_transparent
     need_svg_group = scale != 1 and (need_background or is_multicolor)
+    # Size of the background in modules (the path is scaled by the scale factor)
+    bg_width, bg_height = get_symbol_size(matrix_size, scale=1, border=border)
     if is_multicolor:
         miter = matrix_to_lines_verbose()
     else:
@@ -199,7 +201,7 @@ def write_svg(matrix, matrix_size, out, colormap, scale=1, border=None, xmldecl=
     if need_background:
         # Additional path for the background, will be modified after
         # the SVG paths have been generated
-        coordinates[colormap[consts.TYPE_QUIET_ZONE]] = [(0, 0, width // scale)]
+        coordinates[colormap[consts.TYPE_QUIET_ZONE]] = [(0, 0, bg_width)]
     if not draw_transparent:
         try:
             del coordinates[None]
@@ -233,7 +235,7 @@ def write_svg(matrix, matrix_size, out, colormap, scale=1, border=None, xmldecl=
         k = colormap[consts.TYPE_QUIET_ZONE]
         paths[k] = re.sub(r'\sclass="[^"]+"', '',
                           paths[k].replace('stroke', 'fill')
-                                  .replace('"/>', f'v{height // scale}h-{width // scale}z"/>'))
+                                  .replace('"/>', f'v{bg_height}h-{bg_width}z"/>'))
     svg = ''
     if xmldecl:
         svg += '<?xml version="1.0"'
